@@ -12,6 +12,7 @@ package stream
 
 import (
 	"fmt"
+	"os"
 	"reflect"
 	"strconv"
 	"strings"
@@ -20,6 +21,7 @@ import (
 	"github.com/bluenviron/gortsplib/v5/pkg/format"
 	"github.com/pion/rtp"
 
+	"github.com/bluenviron/mediamtx/internal/conf"
 	"github.com/bluenviron/mediamtx/internal/unit"
 )
 
@@ -36,6 +38,8 @@ type vC23Fmt struct {
 	deltas string
 	spf    int
 	minMax int // smallest maximum the format's encoder supports (its fixed headers must fit)
+	// rtplpcm parameters (G.711: bits = 8); 0 0 for the other formats
+	bits, chans int
 }
 
 type vC23Gen struct{ r *vRand }
@@ -255,16 +259,39 @@ type vC23Scenario struct {
 	srcMax int
 	nUnits int
 	fixed  []unit.Payload // directed scenario: these payloads, in this order (non-RTP publisher)
+	// directed scenario, RTP publisher: these payloads, one hand-made RTP packet each
+	fixedRTP []unit.Payload
+}
+
+// oracle "newRTPEncoder has an encoder for this format and this maximum", observed on the real function
+func vC23Avail(f *vC23Fmt, max int) (avail bool) {
+	defer func() {
+		if r := recover(); r != nil {
+			avail = true // the model panics as well (rtplpcm.Encoder.Init divides by zero)
+		}
+	}()
+	ssrc, seq := uint32(1), uint16(1)
+	_, err := newRTPEncoder(f.mk(), max, &ssrc, &seq)
+	return err == nil
+}
+
+func vC23Scen(f *vC23Fmt, max int, avail bool, initCoq string, steps []string) string {
+	return cqApp("CScenP", strconv.Itoa(f.bits), strconv.Itoa(f.chans), strconv.Itoa(f.id), strconv.Itoa(max),
+		cqBool(avail), cqBool(f.bytejoin), initCoq, cqList(steps))
 }
 
 // runs one scenario; returns the case
 func vC23Run(g *vC23Gen, sc vC23Scenario) (coq string, desc map[string]any, class string, nontrivial bool) {
 	forma := sc.f.mk()
+	avail := vC23Avail(sc.f, sc.max)
 	fx, err := vNewFx(forma, sc.rtp, sc.max, false)
 	if err != nil {
 		panic(fmt.Sprintf("%s: %v", sc.f.name, err))
 	}
-	desc = map[string]any{"format": sc.f.name, "max": sc.max, "rtpPublisher": sc.rtp}
+	desc = map[string]any{"format": sc.f.name, "max": sc.max, "rtpPublisher": sc.rtp, "encoderAvailable": avail}
+	if sc.f.bits != 0 {
+		desc["bitDepth"], desc["channels"] = sc.f.bits, sc.f.chans
+	}
 	initCoq := "None"
 	if fx.sf.rtpEncoder != nil {
 		ssrc, seq := vC23EncInit(fx.sf.rtpEncoder)
@@ -284,6 +311,16 @@ func vC23Run(g *vC23Gen, sc vC23Scenario) (coq string, desc map[string]any, clas
 	if sc.fixed != nil {
 		for _, p := range sc.fixed {
 			ins = append(ins, inUnit{pts: g.pts(), payload: p, class: "directed"})
+		}
+	} else if sc.fixedRTP != nil {
+		ssrc, seq := uint32(g.r.U64()), uint16(g.r.U64())
+		for _, p := range sc.fixedRTP {
+			pts := g.pts()
+			for _, b := range vC22PayloadList(p) {
+				pkt := &rtp.Packet{Header: rtp.Header{Version: 2, PayloadType: 96, SequenceNumber: seq, SSRC: ssrc, Timestamp: uint32(g.r.U64())}, Payload: b}
+				seq++
+				ins = append(ins, inUnit{pts: pts, pkts: []*rtp.Packet{pkt}, class: "directed"})
+			}
 		}
 	} else if !sc.rtp {
 		for i := 0; i < sc.nUnits; i++ {
@@ -317,7 +354,8 @@ func vC23Run(g *vC23Gen, sc vC23Scenario) (coq string, desc map[string]any, clas
 			if src != nil {
 				pkts, err = src.encode(p)
 				if err != nil {
-					panic(fmt.Sprintf("%s: source encoder: %v", sc.f.name, err))
+					// outside the encoder's precondition: the publisher cannot send this unit
+					continue
 				}
 			} else {
 				for _, b := range vC22PayloadList(p) {
@@ -341,6 +379,7 @@ func vC23Run(g *vC23Gen, sc vC23Scenario) (coq string, desc map[string]any, clas
 	reenc := 0
 	trig := false
 	merged := false
+	knownClass := ""
 	for _, in := range ins {
 		var inPkts []*rtp.Packet
 		for _, p := range in.pkts {
@@ -380,6 +419,11 @@ func vC23Run(g *vC23Gen, sc vC23Scenario) (coq string, desc map[string]any, clas
 		case werr != nil:
 			res = "SErr"
 			ds["err"] = werr.Error()
+			if !u.NilPayload() {
+				deliv = vC22PayloadList(u.Payload)
+				delivCoq = "(Some " + cqC23BytesList(deliv) + ")"
+				ds["delivered"] = vC23Sizes(deliv)
+			}
 		default:
 			if !u.NilPayload() {
 				deliv = vC22PayloadList(u.Payload)
@@ -407,7 +451,13 @@ func vC23Run(g *vC23Gen, sc vC23Scenario) (coq string, desc map[string]any, clas
 				}
 				if sc.f.name == "av1" && vC23Merged(deliv, decAll) {
 					merged = true
+					knownClass = "av1/obus-merged-at-packet-boundary"
 					ds["knownDefect"] = "adjacent OBUs joined by the RTP/AV1 packetisation (gortsplib rtpav1.Encoder sets Y/Z although nothing of the next OBU is in the packet)"
+				}
+				if sc.f.name == "opus" && vC23OpusOversized(deliv, u.RTPPackets, sc.max) {
+					merged = true
+					knownClass = "opus/packet-larger-than-max"
+					ds["knownDefect"] = "an Opus packet longer than the maximum RTP payload size is sent as it is (RTP/Opus cannot fragment; rtpEncoderOpus neither splits nor refuses it)"
 				}
 				if sc.f.deltas == "opus" && !u.NilPayload() {
 					dl = vC23OpusDeltas(u.Payload)
@@ -435,7 +485,7 @@ func vC23Run(g *vC23Gen, sc vC23Scenario) (coq string, desc map[string]any, clas
 			// the steps before the defective one are judged on their own (prefix case); the scenario ends here
 			if len(steps) > 1 {
 				vC23Prefix = &vC23Case{
-					coq:   cqApp("CScen", strconv.Itoa(sc.f.id), strconv.Itoa(sc.max), cqBool(sc.f.avail), cqBool(sc.f.bytejoin), initCoq, cqList(steps[:len(steps)-1])),
+					coq:   vC23Scen(sc.f, sc.max, avail, initCoq, steps[:len(steps)-1]),
 					desc:  map[string]any{"format": sc.f.name, "max": sc.max, "rtpPublisher": sc.rtp, "prefixOfKnownDefectCase": true, "steps": dsteps[:len(dsteps)-1]},
 					class: sc.f.name + "/prefix-of-known-defect-case", nt: true,
 				}
@@ -448,9 +498,9 @@ func vC23Run(g *vC23Gen, sc vC23Scenario) (coq string, desc map[string]any, clas
 		}
 	}
 	desc["steps"] = dsteps
-	coq = cqApp("CScen", strconv.Itoa(sc.f.id), strconv.Itoa(sc.max), cqBool(sc.f.avail), cqBool(sc.f.bytejoin), initCoq, cqList(steps))
+	coq = vC23Scen(sc.f, sc.max, avail, initCoq, steps)
 	if merged {
-		return coq, desc, "av1/obus-merged-at-packet-boundary", true
+		return coq, desc, knownClass, true
 	}
 	mode := "payload"
 	if sc.rtp {
@@ -477,25 +527,61 @@ func TestVerifC23(t *testing.T) {
 	defer out.Close()
 	n := vN()
 	fmts := vC23Formats()
-	for _, sc := range vC23Directed(g, fmts) {
+	// the directed scenarios (some of them large) are spread over the run so that the case shards stay balanced
+	directed := vC23Directed(g, fmts)
+	stride := n / (len(directed) + 1)
+	if stride < 1 {
+		stride = 1
+	}
+	nextDirected := 0
+	emitDirected := func() {
+		sc := directed[nextDirected]
+		nextDirected++
 		vC23Prefix = nil
+		big := vC23Big
 		vC23Big = false
 		coq, desc, class, nt := vC23Run(g, sc)
+		vC23Big = big
+		if vC23Prefix != nil {
+			out.Case(vC23Prefix.coq, vC23Prefix.desc, vC23Prefix.class, vC23Prefix.nt)
+		}
 		out.Case(coq, desc, class, nt)
 	}
+	defer func() {
+		for nextDirected < len(directed) {
+			emitDirected()
+		}
+	}()
+	vC23ConfCase(out)
 	for i := 0; i < n; i++ {
+		if i%stride == 0 && nextDirected < len(directed) {
+			emitDirected()
+		}
 		var f *vC23Fmt
-		// 40% of the cases on the modelled packetizer, the rest round-robin over every other format
-		if i%5 < 2 {
+		// 60% of the cases on the modelled packetizers (H.264 25%, H.265 15%, Opus 10%, G.711/LPCM 10% with varying
+		// bit depth and channel count), the rest round-robin over every format
+		switch i % 20 {
+		case 0, 3, 6, 9, 12:
 			f = fmts[0]
-		} else {
+		case 1, 7, 13:
+			f = fmts[1]
+		case 4, 16:
+			f = fmts[8]
+		case 10:
+			f = vC23G711Fmt(vPick(g.r, []int{1, 1, 2, 3}))
+		case 18:
+			f = vC23LPCMFmt(vPick(g.r, []int{8, 16, 16, 24}), vPick(g.r, []int{1, 2, 2, 3, 6, 8}))
+		default:
 			vC23Other++
-			f = fmts[1+vC23Other%(len(fmts)-1)]
+			f = fmts[vC23Other%len(fmts)]
 		}
 		vC23Big = i%400 == 10 || i%400 == 113 // a 64 KiB payload as last unit, with a realistic maximum (H.264, then another format)
 		sc := vC23Scenario{f: f, max: g.max(), nUnits: 1 + g.r.Intn(4)}
 		if sc.max < f.minMax {
 			sc.max += f.minMax
+		}
+		if f.bits != 0 && !vC23Avail(f, sc.max) {
+			sc.rtp = true // newRTPEncoder refuses the format (a sample does not fit): only an RTP publisher can exist
 		}
 		if sc.max > 300 {
 			sc.nUnits = 1 + g.r.Intn(2) // keeps the cases files small
@@ -504,7 +590,7 @@ func TestVerifC23(t *testing.T) {
 			sc.max = vPick(g.r, []int{1460, 1450, 1200})
 			sc.nUnits = 1
 		}
-		if f.id == 17 || (!vC23Big && g.r.Chance(2, 5)) {
+		if f.id == 17 || sc.rtp || (!vC23Big && g.r.Chance(2, 5)) {
 			sc.rtp = true
 			sc.nUnits = 2 + g.r.Intn(3)
 			if sc.max > 300 {
@@ -536,3 +622,56 @@ type vC23Case struct {
 var vC23Prefix *vC23Case
 
 var vC23Big bool
+
+// the known limitation (KNOWN_FINDINGS class opus/packet-larger-than-max): every oversized generated packet carries,
+// unchanged, a delivered Opus packet that is itself longer than the maximum
+func vC23OpusOversized(deliv [][]byte, out []*rtp.Packet, max int) bool {
+	if len(deliv) != len(out) {
+		return false
+	}
+	found := false
+	for i, p := range out {
+		if len(p.Payload) > max {
+			if string(p.Payload) != string(deliv[i]) {
+				return false
+			}
+			found = true
+		}
+	}
+	return found
+}
+
+// which udpMaxPayloadSize values the real configuration loader accepts (conf.Load = defaults + file + Validate)
+func vC23ConfCase(out *vOut) {
+	var probes []string
+	dd := map[string]any{}
+	accepted := []int{}
+	for _, u := range []int{-5, 0, 12, 14, 15, 25, 26, 100, 547, 548, 1200, 1452, 1472, 1473, 5000} {
+		fp := fmt.Sprintf("%s/c23_conf_%d.yml", vC23Work(), u)
+		if err := os.WriteFile(fp, []byte(fmt.Sprintf("udpMaxPayloadSize: %d\n", u)), 0o644); err != nil {
+			panic(err)
+		}
+		_, _, err := conf.Load(fp, nil, nil)
+		os.Remove(fp)
+		probes = append(probes, "("+cqZ(int64(u))+", "+cqBool(err == nil)+")")
+		if err == nil {
+			accepted = append(accepted, u)
+		}
+	}
+	dd["udpMaxPayloadSizeAccepted"] = accepted
+	dd["note"] = "rtpMaxPayloadSize = udpMaxPayloadSize - 12 (- 10 with RTSP encryption); rtph264 needs >= 3, rtph265 >= 4 (integer divide by zero below), rtpmjpeg >= 141"
+	class := "conf/udpMaxPayloadSize-lower-bound-present"
+	for _, u := range accepted {
+		if u-22 < 4 {
+			class = "conf/udpMaxPayloadSize-no-lower-bound"
+		}
+	}
+	out.Case(cqApp("CConf", cqList(probes)), dd, class, true)
+}
+
+func vC23Work() string {
+	if w := os.Getenv("VERIF_WORK"); w != "" {
+		return w
+	}
+	return os.TempDir()
+}
